@@ -332,7 +332,7 @@ def finish(pid, tier, seed, merged, spec, wall_s, inconclusive_reasons):
     reasons = list(inconclusive_reasons)
     floors = spec.get("floors", {})
     for mon, floor in floors.items():
-        f = floor if tier == "quick" else floor * spec.get("thorough_floor_factor", 4)
+        f = floor if tier == "quick" else spec.get("floors_thorough", {}).get(mon, floor)
         got = merged["monitors"].get(mon, {}).get("comparisons", 0)
         if got < f:
             reasons.append(f"monitor '{mon}' made {got} comparisons (< floor {f})")
